@@ -675,13 +675,28 @@ func (w *vfpsWorld) finish() {
 		}
 		time.Sleep(200 * time.Microsecond)
 	}
+	// a request may outlive its read lock (that is what the check is after): wait until no backend operation of
+	// a request is in progress any more before the instance is torn down
+	deadline = time.Now().Add(3 * time.Second)
+	for {
+		w.mu.Lock()
+		busy := len(w.pend)
+		w.mu.Unlock()
+		if busy == 0 {
+			break
+		}
+		if time.Now().After(deadline) {
+			break // (an operation that records nothing leaves its marker behind; not a reason to stop)
+		}
+		time.Sleep(200 * time.Microsecond)
+	}
 	for _, cc := range w.conns {
 		cc.Close()
 	}
 	if w.tcp {
 		w.srv.Stop()
 	}
-	w.fs.Gate, w.fs.Tag = nil, nil
+	// (the backend's Gate / Tag fields are left alone: goroutines of the code under test may still read them)
 	vfpsCur.Store(nil)
 	w.n.Close()
 }
